@@ -755,6 +755,13 @@ func (sh *SessionHandler) rpcRead(s *session, log *zap.Logger) (contracts.Usage,
 	}
 
 	// validate the request sections and calculate the cost
+	for _, sec := range req.Sections {
+		if sec.Offset > rhp2.SectorSize || sec.Length > rhp2.SectorSize-sec.Offset {
+			err := rhp2.ErrOffsetOutOfBounds
+			s.t.WriteResponseErr(err)
+			return contracts.Usage{}, fmt.Errorf("failed to validate read request: %w", err)
+		}
+	}
 	costs, err := settings.RPCReadCost(req.Sections, req.MerkleProof)
 	if err != nil {
 		s.t.WriteResponseErr(err)
